@@ -1,6 +1,7 @@
 import Proofs.Lemmas.SSZTree
 import Proofs.Lemmas.SSZHtrSpec
 import Proofs.Lemmas.SSZCanonical
+import Zrnt.Gen.SszFacts
 /-!
 # C05 — hash-tree-roots agree across struct form, view form and the SSZ specification
 
@@ -73,6 +74,20 @@ theorem htr_eq_spec (H : Hash2) (t : Ty) (v : Val) (hw : WF t v) : htr H t v = h
 theorem htr_eq_spec_of_decode (H : Hash2) (t : Ty) (bs : Bytes) (v : Val) (h : decode t bs = some v) :
     htr H t v = htrSpec H t v :=
   htr_eq_htrSpec H t v (decode_some_aux t bs v h).1
+
+open Zrnt.Schema Zrnt.Schema.Facts Zrnt.Gen.SszFacts in
+/-- **Struct form and view form against the schema** (facts regenerated from /repo): for every Go SSZ type whose
+`HashTreeRoot` body has a recognised shape, it merkleizes the struct's fields in the schema's order
+(`hFn.HashTreeRoot`), resp. the list/vector/bitfield with the schema's limit and the helper that packs the
+schema's element type (`ComplexListHTR`/`Uint64ListHTR`/`Uint8ListHTR`/`BitListHTR`/`ByteListHTR`/…); and every
+tree-view type definition (`XType`: `ContainerType`, `ListType`, `VectorType`, `BitListType` …, field order,
+element types, limit expressions) denotes the specification schema — for all configurations. This is the
+`HashTreeRoot`/view-type part of `Zrnt.Schema.Facts.checkType`, the same per-row obligations as C04's
+`ssz_methods_agree`. -/
+theorem htr_struct_and_view_agree_with_schema : ∀ T ∈ types, checkType owners views T = none := by
+  intro T h
+  have := List.all_eq_true.mp all_rows_ok T h
+  simpa [Option.isNone_iff_eq_none] using this
 
 /-! ## The persistent tree behind the views: no stale caches (model) -/
 
